@@ -18,13 +18,19 @@ func VerifDma() {
 	s := newVerifSystem(uint8(vCfg("type")), 0, uint8(vCfg("ram")))
 	s.havocMemories()
 	vHavoc("oam", s.o)
-	vAssume(!s.o.VerifCorrupt() && !s.o.VerifFlags() && s.o.VerifDmaInv())
+	// the PPU may be in mode 2 (corruption window open) during the transfer; the CPU side runs Corrupt() at the end of
+	// every machine cycle, as cpu.ExecuteMachineCycle does
+	vAssume(!s.o.VerifFlags())
+	s.o.VerifSetPPULast(0xfe00 + uint16(vCfg("last"))) // the PPU's last OAM access (configuration: keeps the row arithmetic concrete)
+	s.o.VerifIdleDma(vCfg("after") != 0) // the engine is idle: fresh, or left by an earlier completed transfer
 	if c, ok := s.m.mbc.(*mbc1); ok {
 		// cartridge RAM readable for the A0-BF sources
 		c.Write(0x0000, 0x0a)
 	}
 	a := vU16("a")
 	vAssume(a >= 0xfe00 && a <= 0xfeff)
+	i := vU8("i")
+	vAssume(i < 0xa0)
 	var want [0xa0]uint8
 	if restartAt < 0 {
 		for i := 0; i < 0xa0; i++ {
@@ -43,6 +49,7 @@ func VerifDma() {
 			s.m.EndMachineCycle()
 			if k < 162 {
 				vAsserti("first-blocked@", k, s.m.Read(a) == 0xff)
+				s.o.Corrupt()
 			}
 		}
 		s.m.Write(0xff46, page2)
@@ -53,11 +60,12 @@ func VerifDma() {
 		n++
 		if k < 162 {
 			vAsserti("blocked@", k, s.m.Read(a) == 0xff)
+			b := s.o.VerifByte(i)
+			s.o.Corrupt()
+			vAsserti("blocked-read-corrupts-nothing@", k, s.o.VerifByte(i) == b)
 		}
 	}
 	vAssert("finished-within-162", !s.o.VerifDmaRunning())
-	i := vU8("i")
-	vAssume(i < 0xa0)
 	vAssert("copied", s.o.VerifByte(i) == want[i])
 	vAssert("readable-again", s.m.Read(0xfe00+uint16(i)) == want[i])
 	vAssert("fea0-feff-read-zero", s.m.Read(0xfea0+uint16(i&0x5f)) == 0x00)
